@@ -86,7 +86,11 @@ type Scenario struct {
 	// the client ignores, so the pinging goroutine then waits for a reply forever; that is outside the twenty
 	// statements and is tolerated (World.Stalled), everything else is judged as usual.
 	Ticks int
-	Setup func(w *World)
+	// WriteFaults: see Net.WriteFaults. A call whose own request could not be written returns that error; the
+	// one-shot goroutine that feeds the reply of a message nobody answers (msgs_ack) stays blocked when that
+	// message could not be written - a leak of the unchanged library that no statement speaks about.
+	WriteFaults int
+	Setup       func(w *World)
 	// AfterConnect runs in the main thread right after CreateConnection returned.
 	AfterConnect        func(w *World)
 	SaltAfterExchange   func(w *World)
@@ -156,6 +160,9 @@ func CheckResult(r *CallResult) string {
 	if r.Call.MayFailOnConnLoss && r.Returned && r.Err != nil && strings.Contains(r.Err.Error(), "closed network connection") {
 		return ""
 	}
+	if r.Returned && r.Err != nil && strings.Contains(r.Err.Error(), "injected write failure") {
+		return "" // its own request could not be written
+	}
 	if !r.Returned {
 		return "never-returned"
 	}
@@ -196,6 +203,7 @@ func Run(sc *Scenario, prefix []int, tracing bool) *World {
 	}
 	s.ClockFrozen = sc.ClockFrozen
 	w.Net = NewNet(s)
+	w.Net.WriteFaults = sc.WriteFaults
 	key := TestKey()
 	w.Srv = rpcsrv.New(key, sc.Salt)
 	w.Srv.Opt = sc.Opt
@@ -355,6 +363,10 @@ func (w *World) Stalled() []string {
 			}
 			if w.Sc.Ticks > 0 && strings.Contains(b.Thread, "startPinging") {
 				continue // the pinger waits for the reply to its ping (see Scenario.Ticks)
+			}
+		case sched.OpSend:
+			if len(w.Net.WriteFaulted) > 0 && strings.Contains(b.Thread, "sendPacket") {
+				continue // see Scenario.WriteFaults
 			}
 		}
 		out = append(out, b.Thread+":"+b.Desc)
